@@ -12,6 +12,7 @@ import (
 
 	corev1alpha1 "package-operator.run/apis/core/v1alpha1"
 	"package-operator.run/internal/packages/zzverif/checks"
+	"package-operator.run/internal/packages/zzverif/checks/twin"
 	"package-operator.run/internal/packages/zzverif/kmodel"
 	"package-operator.run/internal/packages/zzverif/osw"
 	"package-operator.run/internal/packages/zzverif/report"
@@ -573,6 +574,18 @@ func replaySystem(v report.Violation) string {
 	return osw.ReplayBFS(system(sc), v)
 }
 
+// twinScenarios: rollouts of a ClusterObjectDeployment in lockstep with an ObjectDeployment.
+func twinScenarios(quick bool) []twin.Scenario {
+	out := []twin.Scenario{
+		{Kind: "deployment", Classes: []string{"ready"}, Edits: 1, Limit: 0},
+		{Kind: "deployment", Classes: []string{"ready"}, Edits: 1, Limit: 1, Pauses: 1},
+	}
+	if !quick {
+		out = append(out, twin.Scenario{Kind: "deployment", Classes: []string{"ready", "notready"}, Edits: 1, Limit: 0}, twin.Scenario{Kind: "deployment", Classes: []string{"ready"}, Edits: 2, Limit: 1})
+	}
+	return out
+}
+
 func init() {
 	checks.Register(&checks.Check{
 		ID:    "C08",
@@ -589,6 +602,6 @@ func init() {
 				}
 				return 2
 			}, Run: runSystem, Replay: replaySystem, Parallel: true},
-		},
+			twin.Sub("C08", twinScenarios)},
 	})
 }
